@@ -24,8 +24,7 @@ META = {
 }
 
 
-def r71(facts, res):
-    R = 'R7.1'
+def r71(facts, res, R='R7.1'):
     b = find_fn(facts, R, 'lr')
     tab, lookup, lh = arms(facts, R, b)
     errs = tab.get('Error', [])
